@@ -86,10 +86,10 @@ func xCoqVal(v reflect.Value) string {
 	case reflect.Bool:
 		return fmt.Sprint(v.Bool())
 	case reflect.String:
-		return bytesLit(v.String())
+		return xBytesLit(v.String())
 	case reflect.Slice:
 		if v.Type().Elem().Kind() == reflect.Uint8 {
-			return bytesLit(string(v.Bytes()))
+			return xBytesLit(string(v.Bytes()))
 		}
 		t := "(@nil Z)"
 		for i := v.Len() - 1; i >= 0; i-- {
